@@ -120,6 +120,16 @@ def run(chk: Check, model):
                               "sampled delay, ts_start(k+1) = max(ts_end, ts_start + 1/rate)")
     from .c12 import rule_scan
     rule_scan(chk, model, "C04.generator")
+    chk.rule("C04.phase", "the phase of the schedule: BaseNode.phase = max(0, phases of the non-skipped inputs), recomputed on every read; phase_output = phase + delay; "
+                          "Connection.phase = sender phase_output + delay")
+    from .c16 import rule_phase
+    rule_phase(chk, model, "C04.phase")
+    # the first step has no predecessor: the primed 'end of previous step' is 0, so that only the schedule / the inputs decide
+    rs = ar.node("_start")
+    prime = queue_ops(rs, "q_ts_end_prev", "append")
+    f_start = model.func(f"{NODE}._start")
+    chk.add("C04.start", "first step: end of previous step primed with 0", len(prime) == 1 and T.const_value(prime[0].args[0]) == 0 and prime[0].guard == T.TRUE,
+            f"_start primes q_ts_end_prev with {[T.show(e.args[0])[:60] for e in prime]}, expected 0.0 (an advancing node would otherwise be held back)", chk.loc(f_start))
 
     # ---------------------------------------------------------------- push_scheduled_ts
     fi = model.func(f"{NODE}.push_scheduled_ts")
